@@ -231,8 +231,14 @@ def options_chunk_always_written(H, cname):
     m = cls()
     stored = {}
     for name, o in cls.options.items():
-        stored[name] = _sym_stored(H, o)
+        if name == "user_defined_controllers":
+            # decides how many controller values are written: case split instead of a symbolic count
+            stored[name] = H.choice("user_defined_controllers", [0, 2, 96])
+        else:
+            stored[name] = _sym_stored(H, o)
         m.option_values[name] = stored[name]
+    if "user_defined_controllers" in stored:
+        m.recompute_controller_attachment()
     data = rw.write_container(H, Synth(m))
     chunks = F.parse_stream(data)
     pos = [i for i, c in enumerate(chunks) if bytes(c[0]) == b"CHNM" and F.dec_u32(c[1]) == cls.options_chnm]
